@@ -332,6 +332,9 @@ class Exec:
                 return self.set_nonempty(self.hget(st, "$set", sv.t))
             if h in CLASSES or h == "fn":
                 c = CLASSES.get(h)
+                if c is not None and c.truth:
+                    inner = self.truth(self.pev(ast.parse(c.truth, mode="eval").body, st.copy(env={"self": sv}), Mode(True)), st)
+                    return And(sv.t != L.None_, inner)
                 if c is not None and "__len__" in c.methods:
                     raise OutOfSubset("truthiness through __len__ contract")
                 if c is not None and c.isa in ("list",):
@@ -493,7 +496,7 @@ class Mode:
 
 
 PURE_BUILTINS = {"len", "isinstance", "id", "hasattr", "bool", "tuple", "frozenset", "min", "max", "abs", "callable", "type", "iter", "int"}
-SPEC_FUNCS = {"entry", "implies", "old", "call", "call2", "all", "any", "no_dups", "seq", "setof", "filt", "addall", "cat", "forall", "exists",
+SPEC_FUNCS = {"values", "entry", "implies", "old", "call", "call2", "all", "any", "no_dups", "seq", "setof", "filt", "addall", "cat", "forall", "exists",
               "is_tuple", "ite", "fresh", "contents", "keys", "dget", "dhas", "rng", "idof", "rev", "prefix", "isinst", "truth",
               "subseq_of", "perm", "count", "sorted_by", "index", "pair", "slice_adj", "typeis", "allocated", "ghost"}
 
@@ -527,7 +530,7 @@ def _patch_engine():
         txt = ast.unparse(f)
         if txt in self.c.callees:
             t0 = self.callee_target(txt)[0]
-            return t0.startswith("pure:") or t0 in ("identity",)
+            return t0.startswith("pure:") or t0 in ("identity", "id")
         if isinstance(f, ast.Name):
             if f.id in PURE_BUILTINS or f.id in SPEC_FUNCS:
                 return True
@@ -953,6 +956,8 @@ def _patch_engine():
             tgt = self.callee_target(txt)[0]
             if tgt == "identity":
                 return self.pev(args[-1], st, m)
+            if tgt == "id":
+                return sv_int(L.idof(self.to_v(self.pev(args[0], st, m))))
             if tgt.startswith("pure:"):
                 return self.apply_pure(tgt[5:], [self.pev(a, st, m) for a in args], st)
         if txt in ("cython.cast", "typing.cast"):
@@ -1269,6 +1274,11 @@ def _patch_engine():
         return SV("seq", self.hget(st, "$dkeys", a.t))
     E.sf_keys = sf_keys
 
+    def sf_values(self, node, st, m):
+        a = self.pev(node.args[0], st, m)
+        return SV("seq", L.smap(self.hget(st, "$dval", a.t), self.hget(st, "$dkeys", a.t)))
+    E.sf_values = sf_values
+
     def sf_dget(self, node, st, m):
         a = self.pev(node.args[0], st, m)
         k = self.to_v(self.pev(node.args[1], st, m))
@@ -1286,6 +1296,14 @@ def _patch_engine():
         c = self.pev(node.args[1], st, m)
         return sv_bool(L.tyid(self.to_v(a)) == cls_id(c.py[-1]))
     E.sf_typeis = sf_typeis
+
+    def sf_fresh(self, node, st, m):
+        """fresh(e): the object e denotes now was not allocated in the pre-state"""
+        a = self.pev(node.args[0], st, m)
+        if m.old is None:
+            raise ContractError("fresh() outside a postcondition")
+        return sv_bool(Not(Select(m.old.alloc, self.to_v(a))))
+    E.sf_fresh = sf_fresh
 
     def sf_allocated(self, node, st, m):
         a = self.pev(node.args[0], st, m)
@@ -1362,6 +1380,12 @@ def _patch_engine():
             m.checks.append((L.mem(s, x), "ValueError", node))
         return sv_int(L.pos(s, x))
     E.pm_index = pm_index
+
+    def pm_values(self, recv, args, node, st, m):
+        if recv.kind == "v" and recv.hint == "dict":
+            return SV("seq", L.smap(self.hget(st, "$dval", recv.t), self.hget(st, "$dkeys", recv.t)))
+        raise OutOfSubset(".values()")
+    E.pm_values = pm_values
 
     def pm_keys(self, recv, args, node, st, m):
         if recv.kind == "v" and recv.hint == "dict":
@@ -1563,6 +1587,17 @@ def _patch_exec():
 
     def ev_comp(self, node, st, ctx, k):
         """comprehensions in code: pure filter form only (allocates the result)"""
+        if isinstance(node, ast.ListComp) and len(node.generators) == 1:
+            g = node.generators[0]
+            if (isinstance(node.elt, ast.Tuple) and isinstance(g.target, ast.Tuple) and len(g.target.elts) == 2 and len(node.elt.elts) == 2
+                    and isinstance(g.iter, ast.Call) and isinstance(g.iter.func, ast.Attribute) and g.iter.func.attr == "items"
+                    and [e.id for e in node.elt.elts if isinstance(e, ast.Name)] == [e.id for e in g.target.elts if isinstance(e, ast.Name)]):
+                d = self.pev(g.iter.func.value, st, Mode(False))
+                if d.kind == "v" and d.hint == "dict":
+                    keys = self.hget(st, "$dkeys", d.t)
+                    vals = self.hget(st, "$dval", d.t)
+                    P = self.dict_filter_pred(g, st, vals)
+                    return k(SV("py", py=("pairs", L.filt(P, keys), vals)), st)
         if isinstance(node, ast.ListComp):
             sv = self.pev_ListComp(node, st, Mode(False, None, None))
             r, st2 = self.new_list(st, sv.t)
@@ -1580,8 +1615,54 @@ def _patch_exec():
                     img = self.def_set(lambda y: And(L.is_int(y), Select(sset, L.unid(L.iunbox(y)))))
                     r, st2 = self.new_set(st, img)
                     return k(r, st2)
+        if isinstance(node, ast.DictComp) and len(node.generators) == 1:
+            g = node.generators[0]
+            # {k: v for k, v in D.items() if cond(k)}  -- order preserving filter of a dict
+            if (isinstance(g.iter, ast.Call) and isinstance(g.iter.func, ast.Attribute) and g.iter.func.attr == "items" and isinstance(g.target, ast.Tuple)
+                    and len(g.target.elts) == 2 and isinstance(node.key, ast.Name) and isinstance(node.value, ast.Name)
+                    and node.key.id == g.target.elts[0].id and node.value.id == g.target.elts[1].id):
+                d = self.pev(g.iter.func.value, st, Mode(False))
+                if d.kind == "v" and d.hint == "dict":
+                    keys = self.hget(st, "$dkeys", d.t)
+                    vals = self.hget(st, "$dval", d.t)
+                    P = self.dict_filter_pred(g, st, vals)
+                    r, st2 = self.new_dict(st, L.filt(P, keys), vals)
+                    return k(r, st2)
+            # {f(x): x for x in S} with f = id : identity-keyed dict of an iterable
+            if (isinstance(g.target, ast.Name) and not g.ifs and isinstance(node.value, ast.Name) and node.value.id == g.target.id
+                    and isinstance(node.key, ast.Call) and ast.unparse(node.key.func) in ("id", "_get_id")):
+                src = self.pev(g.iter, st, Mode(False))
+                sq = self.as_seq(src, st)
+                keys, vals = self.id_dict_of(sq)
+                r, st2 = self.new_dict(st, keys, vals)
+                return k(r, st2)
         raise OutOfSubset(f"comprehension {ast.unparse(node)[:60]}")
     E.ev_comp = ev_comp
+
+    def dict_filter_pred(self, g, st, vals):
+        from z3 import substitute
+        x = Const("cx", V)
+        kname, vname = g.target.elts[0].id, g.target.elts[1].id
+        m2 = Mode(False, None, None, None, {kname: SV("v", x, None), vname: SV("v", Select(vals, x), None)}, True)
+        conds = [self.truth(self.pev(c, st, m2), st) for c in g.ifs] or [BoolVal(True)]
+        body = And(*conds) if len(conds) > 1 else conds[0]
+        return self.def_set(lambda y: substitute(body, (x, y)))
+    E.dict_filter_pred = dict_filter_pred
+
+    def id_dict_of(self, sq):
+        """keys/values of {id(x): x for x in sq}: keys = first occurrences of the ids in order, value = last object with that id
+        (objects with equal id are the same object, so 'last' is 'the')"""
+        idseq = Function("idseq", Sq, Sq)
+        s_ = Const("s", Sq)
+        i_ = Int("i")
+        self.extra_axioms.append(ForAll([s_], L.slen(idseq(s_)) == L.slen(s_), patterns=[idseq(s_)]))
+        self.extra_axioms.append(ForAll([s_, i_], Implies(And(0 <= i_, i_ < L.slen(s_)), L.at(idseq(s_), i_) == L.ibox(L.idof(L.at(s_, i_)))), patterns=[L.at(idseq(s_), i_)]))
+        keys = L.addall(L.sempty, idseq(sq))
+        vals = self.fresh("dval", MapS)
+        y = Const("y", V)
+        self.extra_axioms.append(ForAll([y], Implies(L.v_is_int_(y), Select(vals, y) == L.unid(L.iunbox(y))), patterns=[Select(vals, y)]))
+        return keys, vals
+    E.id_dict_of = id_dict_of
 
     # ------------------------------------------------------------------ statements
     def ex_block(self, stmts, st, ctx):
@@ -1957,7 +2038,7 @@ def _patch_loops():
                     txt = ast.unparse(n.func)
                     if txt in self.c.callees:
                         tgt = self.callee_target(txt)[0]
-                        if tgt.startswith("pure:") or tgt in ("identity", "noop"):
+                        if tgt.startswith("pure:") or tgt in ("identity", "noop", "id"):
                             continue
                         eff.append(("call", txt, n))
                         continue
@@ -2409,6 +2490,9 @@ def _patch_calls():
             if n in CLASSES:
                 return self.ev_construct(n, node, st, ctx, k)
             raise OutOfSubset(f"call of {n!r}: no contract (add it to callees)")
+        if isinstance(f, ast.Attribute) and txt == "self.__class__" and self.c.cls:
+            self.assumptions.add("self.__class__ is the class itself (subclasses of the verified class are not considered)")
+            return self.ev_construct(self.c.cls, node, st, ctx, k)
         if isinstance(f, ast.Attribute):
             base = f.value
             btxt = ast.unparse(base)
@@ -2717,12 +2801,15 @@ def _patch_calls():
 
     def bm_dict_update(self, recv, args, node, st, ctx, k):
         o = args[0]
-        if not (o.kind == "v" and o.hint == "dict"):
-            raise OutOfSubset("dict.update(non-dict)")
         keys = self.hget(st, "$dkeys", recv.t)
         vals = self.hget(st, "$dval", recv.t)
-        okeys = self.hget(st, "$dkeys", o.t)
-        ovals = self.hget(st, "$dval", o.t)
+        if o.kind == "py" and isinstance(o.py, tuple) and o.py[0] == "pairs":
+            okeys, ovals = o.py[1], o.py[2]
+        elif o.kind == "v" and o.hint == "dict":
+            okeys = self.hget(st, "$dkeys", o.t)
+            ovals = self.hget(st, "$dval", o.t)
+        else:
+            raise OutOfSubset("dict.update(non-dict)")
         nv = self.fresh("dval", MapS)
         x = Const("x", V)
         self.extra_axioms.append(ForAll([x], Select(nv, x) == If(L.mem(okeys, x), Select(ovals, x), Select(vals, x)), patterns=[Select(nv, x)]))
@@ -3010,7 +3097,7 @@ def _patch_run():
         # postconditions are evaluated with the *parameters'* entry values (Python rebinding of a parameter is local)
         rst = st.copy(env=dict(st.env, **{n: self.st0.env[n] for n in self.st0.env}))
         m = Mode(True, self.st0, None, sv, {"out": SV("seq", st.out)})
-        for i, cl in enumerate(self.c.ensures):
+        for i, cl in enumerate(list(self.c.ensures) + list(self.variant.get("ensures", []))):
             g = self.truth(self.pev(ast.parse(cl, mode="eval").body, rst, m), rst)
             self.oblige(st, g, f"{tag}.ensures[{i}]", node)
         for exc_name, cond in self.raises.items():
